@@ -139,6 +139,7 @@ var c04Muts = []mutSpec{
 	{kind: "outer-ech-type", alerts: []int{alIllegalParameter}},
 	{kind: "outer-sni", alerts: []int{alIllegalParameter}},
 	{kind: "outer-sni-empty", alerts: []int{alIllegalParameter, alDecodeError}},
+	{kind: "outer-trailing", alerts: []int{alDecodeError, alIllegalParameter}},
 	{kind: "inner-no-ech", alerts: []int{alIllegalParameter}},
 	{kind: "inner-no-tls13", alerts: []int{alIllegalParameter}, noComp: true},
 	{kind: "pad-nonzero", alerts: []int{alIllegalParameter}, needPad: true},
@@ -252,6 +253,7 @@ func genC04(seed uint64, idx int) *Plan {
 		p.Mutations = append(p.Mutations, Mutation{Kind: ms.kind, A: int(r.Uint32() >> 1), B: int(r.Uint32() >> 1)})
 		p.Alerts = addAlerts(p.Alerts, ms.alerts)
 	}
+	p.AlertWriteFails = idx%9 == 4
 	if len(p.Mutations) == 1 && p.Mutations[0].Kind == "outer-has-oe" && idx%2 == 0 {
 		// the rule about ech_outer_extensions in an outer hello does not depend
 		// on the server having keys
@@ -333,6 +335,18 @@ func genC05(seed uint64, idx int) *Plan {
 			t.ID += byte(1 + r.IntN(200))
 		}
 		p.Target = t
+		if idx%4 == 2 {
+			// ... or: sealed to the very key the server holds, with that key's
+			// config as info, under a config id the server does not have
+			p.Target.KeySeed--
+			p.Target.ID = p.Keys[0].ID
+			for i := range p.Keys {
+				if p.Keys[i].KeySeed == p.Target.KeySeed {
+					p.Target = p.Keys[i]
+				}
+			}
+			p.Mutations = []Mutation{{Kind: "wrong-id-ext", A: idx / 4}}
+		}
 		if idx%4 == 0 {
 			// ... and an encapsulated key no X25519 key can use
 			p.Mutations = []Mutation{{Kind: "bad-enc", A: idx / 4}}
@@ -354,6 +368,13 @@ func genC05(seed uint64, idx int) *Plan {
 	}
 	if (p.NoECH || p.Grease) && r.IntN(3) == 0 {
 		p.Keys = nil
+	}
+	if len(p.Keys) > 0 && idx%6 == 1 {
+		// the key list also holds a key for a KEM the library does not implement,
+		// under a config id of its own
+		o := KeySpec{ID: p.Target.ID + 101, PublicName: p.Target.PublicName, Suites: append([]echbox.Suite(nil), echbox.AllSuites...), KeySeed: p.Target.KeySeed + 4242, OtherKEM: true}
+		at := (idx / 6) % (len(p.Keys) + 1)
+		p.Keys = append(p.Keys[:at:at], append([]KeySpec{o}, p.Keys[at:]...)...)
 	}
 	if idx%5 == 2 {
 		p.Interleave = 1 + (idx/5)%3
